@@ -187,6 +187,74 @@ def handleLine (st0 : DrvSt) (line : String) : DrvSt × String :=
                                        .hex (Wire.maskBytes m)]).render
           | none => (V.err "raised").render)
       | "file.new", [.int now] => (st, (V.hex (newFile now)).render)
+      | "cm.run", [start, .list edits] =>
+        let optInt : V → Option (Option Int)
+          | .sym "none" => some none
+          | v => (v.int?).map some
+        let itc : V → Option (Nat × Option Int)
+          | .list [it, c] => do pure (← it.nat?, ← optInt c)
+          | _ => none
+        let out (r : CM × Bool) : V := .list [.int (if r.2 then 1 else 0), V.ofInts r.1.chans, V.ofNats r.1.items]
+        let r : Option (List V) := do
+          let s0 ← match start with
+            | .list [.sym "empty"] => some CM.empty
+            | .list [.sym "construct", items] => do pure (CM.construct (← items.nats?))
+            | .list [.sym "decode", ch, items] => CM.decode (← ch.ints?) (← items.nats?)
+            | _ => none
+          let rec goCm (s : CM) : List V → Option (List V)
+            | [] => some []
+            | e :: rest => do
+              let r ← match e with
+                | .list [.sym "add", it, c] => do pure (s.add (← it.nat?) (← optInt c))
+                | .list [.sym "removeFirst", ids] => do
+                    let ids ← ids.nats?
+                    pure (s.removeFirst (fun x => ids.contains x))
+                | .list [.sym "removeIndex", i] => do pure (s.removeIndex (← i.int?))
+                | .list [.sym "addMany", l] => do pure (s.addMany (← (← l.list?).mapM itc))
+                | .list [.sym "removeMany", is] => do pure (s.removeMany (← is.ints?))
+                | .list [.sym "assignPairs", ps] => do
+                    let ps ← (← ps.list?).mapM (fun p => match p with
+                      | .list [c, it] => do pure ((← c.int?), (← it.nat?))
+                      | _ => none)
+                    pure (CM.assignPairs ps)
+                | .list [.sym "assignItems", items, bad] => do pure (s.assignItems (← items.nats?) ((← bad.nat?) != 0))
+                | _ => none
+              let tl ← goCm r.1 rest
+              pure (out r :: tl)
+          let tl ← goCm s0 edits
+          pure (out (s0, false) :: tl)
+        (st, match r with | some vs => (V.list vs).render | none => (V.err "refused").render)
+      | "fs.run", [.list nodes, .list ops] =>
+        -- nodes: ((path kind #bytes) …) with kind file|dir ; ops: (new p now) | (copy src dst) | (open p)
+        let mk : V → Option (Nat × Node)
+          | .list [p, .sym "file", .hex b] => do pure (← p.nat?, Node.file b)
+          | .list [p, .sym "dir"] => do pure (← p.nat?, Node.dir)
+          | _ => none
+        let outName : FsOut → String
+          | .ok => "ok" | .fileExists => "FileExistsError" | .notFound => "FileNotFoundError" | .invalid => "invalid" | .isDir => "isDir"
+        let r : Option (List V) := do
+          let fs0 ← nodes.mapM mk
+          let rec go (fs : Fs) : List V → Option (List V)
+            | [] => some []
+            | .list [.sym "new", p, now] :: rest => do
+                let r := fsNew fs (← p.nat?) (← now.int?)
+                let tl ← go r.1 rest
+                pure (.sym (outName r.2) :: tl)
+            | .list [.sym "copy", a, b] :: rest => do
+                let r := fsCopy fs (← a.nat?) (← b.nat?)
+                let tl ← go r.1 rest
+                pure (.sym (outName r.2) :: tl)
+            | .list [.sym "open", p] :: rest => do
+                let o := match fsOpen fs (← p.nat?) with | .ok _ => "ok" | .error e => outName e
+                let tl ← go fs rest
+                pure (.sym o :: tl)
+            | .list [.sym "get", p] :: rest => do
+                let v : V := match fs.get (← p.nat?) with | some (.file b) => .hex b | some .dir => .sym "dir" | none => .sym "absent"
+                let tl ← go fs rest
+                pure (v :: tl)
+            | _ => none
+          go fs0 ops
+        (st, match r with | some vs => (V.list vs).render | none => "(bad-op)")
       | _, _ =>
         match handle cmd args with
         | some v => (st, v.render)
